@@ -41,8 +41,7 @@ def classify(problem, case):
     if "(set-option :incremental false)" in sc and first_check >= 0 and "(assert" in sc[first_check:] \
             and "evaluates to" in problem.get("what", ""):
         return "nonincremental-assert-after-check"
-    if "terminated abnormally" in problem.get("what", "") and "SafeInt" in problem.get("stderr", "") \
-            and "QF_IDL" in sc and "(get-model)" in sc:
+    if "QF_IDL" in sc and "(get-model)" in sc and "SafeInt" in (problem.get("stderr", "") + problem.get("output", "")):
         return "idl-model-safeint-underflow"
     if re.search(r"\(declare-fun \S+ \([^)]*\bBool\b[^)]*\)", sc) and ("evaluates to" in problem.get("what", "") or
                                                                        "get-value" in problem.get("what", "")):
